@@ -63,8 +63,8 @@ def ret_ok_status(path):
 
 
 class Agg:
-    def __init__(self, mir, src, ob):
-        self.mir, self.src, self.ob = mir, src, ob
+    def __init__(self, mir, src, ob, tier="quick"):
+        self.mir, self.src, self.ob, self.tier = mir, src, ob, tier
         self.vs = status_tags(src)
         self.P, self.F, self.S = self.vs.index("PASS"), self.vs.index("FAIL"), self.vs.index("SKIP")
         self.enums = {"Status": self.vs}
@@ -76,6 +76,9 @@ class Agg:
         text = find_fn(self.mir, fn_re, first_arg_re)
         m = dict(mirexec.COMMON_MODELS)
         m.update(models)
+        if self.tier == "thorough":
+            # deeper bound: one more loop iteration per path (collections of up to unroll+1 elements), more paths allowed
+            unroll, max_paths = unroll + 1, max_paths * 20
         ex = mirexec.Exec(text, self.enums, mirsmt.consts_of(self.mir), m, set(log), unroll=unroll, mir=self.mir,
                           max_paths=max_paths)
         if prep:
@@ -745,9 +748,9 @@ SITES = {
 }
 
 
-def run(prop, mir, src, ob):
+def run(prop, mir, src, ob, tier="quick"):
     import mirblocks, mirflow, mirpaths, mirload, mirquery
-    a = Agg(mir, src, ob)
+    a = Agg(mir, src, ob, tier)
     for s in SITES.get(prop, []):
         getattr(a, s)()
     for f in mirblocks.SITES.get(prop, []) + mirflow.SITES.get(prop, []) + mirpaths.SITES.get(prop, []) + mirload.SITES.get(prop, []) + mirquery.SITES.get(prop, []):
